@@ -1,8 +1,10 @@
 # C15 orchestration (sourced by ./check): guard-page allocator in two placements + valgrind memcheck
 _t0=$(date +%s.%N)
 _rc=0
-build guard c15 || exit 2
-build rel c15 || exit 2
+( build rel c15; echo $? > "$ROOT/target/c15-build-rel.rc" ) &
+build guard c15; _b=$?
+wait
+[ $_b -eq 0 ] && [ "$(cat "$ROOT/target/c15-build-rel.rc")" = 0 ] || exit 2
 for mode in end start; do
   NBMC_GUARD=$mode NBMC_NO_PYREF=1 NBMC_PART=guard-$mode NBMC_CONFIG=guard "$(bindir guard)/c15" "$tier"; _r=$?
   [ $_r -gt $_rc ] && _rc=$_r
